@@ -69,6 +69,9 @@ def selftest_trace(ctx, module, cfgname, cfg, trace, name):
     if isinstance(lines[i].get("ok"), bool):
         lines[i]["ok"] = not lines[i]["ok"]          # the verdict always matters
         ok = True
+    elif lines[i].get("ev") == "Look" and isinstance(lines[i].get("i"), int):
+        lines[i]["i"] += 1                           # the RESULT of a lookup (an argument may be corrupted into an equivalent one)
+        ok = True
     else:
         ok, _ = bump(lines[i])
     if not ok:
@@ -326,10 +329,10 @@ def check_C14(ctx):
     for m in ("PathString", "Samples", "HitObjectLine", "Trace_HitObjectLine"):
         sany(ctx, m)
     plan = [("typesquick", 0, 1), ("combo", 0, 3), ("num", 0, 2), ("bank", 0, 1), ("nodes", 0, 1),
-            ("pathx", 3, 1), ("path", 4, 1), ("pseg", 0, 1)]
+            ("pathx", 3, 1), ("path", 4, 1), ("pseg", 0, 1), ("pbig", 0, 1), ("pdeep", 7, 1)]
     if thorough:
         plan = [("typesfull", 0, 1), ("typesquick", 0, 1), ("combo", 0, 4), ("num", 0, 3), ("bank", 0, 2), ("nodes", 0, 2),
-                ("pathx", 4, 1), ("path", 5, 1), ("pathr", 6, 1), ("pseg", 0, 2)]
+                ("pathx", 4, 1), ("path", 5, 1), ("pathr", 6, 1), ("pseg", 0, 2), ("pbig", 0, 2), ("pdeep", 8, 1)]
     for (a, n, ml) in plan:
         f = hitobj_cases(ctx, a, n, ml)
         summ = harness(ctx, ["hitobj", "replay", "--prop", "C14", "--spellings", "2"], cases_file=f, name="hitobj-" + a,
@@ -422,14 +425,21 @@ def check_C20(ctx):
     trace_step(ctx, "Trace_SliderEvents", "Trace_SliderEvents", tcfg,
                ["events", "record", "--runs", str(runs), "--iters", str(iters)],
                "recorded SliderEventsIter calls are not a behaviour of the SliderEvents specification", "events-trace")
-    ctx.assumptions += ["parameters on the dyadic 1/8 lattice with integer velocities (exactness rule): float and rational arithmetic agree on every branch",
-                        "real-valued parameters off the lattice are not claimed"]
+    # the declarative stream on real-valued parameters off the lattice
+    summ = harness(ctx, ["events", "relations", "--iters", "2000000" if thorough else "150000"], name="events-relations", timeout=3600)
+    report_mismatches(ctx, summ, "the event stream for real-valued parameters is not the declarative stream of the specification")
+    ctx.assumptions += ["MODEL: parameters on the dyadic 1/8 lattice with integer velocities (exactness rule): float and rational arithmetic agree on every branch",
+                        "real-valued parameters (decimal velocities, lengths, tick distances as produced by decimal slider multipliers and bpm) are "
+                        "checked against the declarative stream evaluated in f64; a candidate tick within 1e-9 x length of the 10 ms cut-off may be "
+                        "present or absent (float rounding at the exact boundary is not a violation)",
+                        "velocity > 0 (a decoded map cannot produce another one: slider multiplier and beat length are clamped positive)"]
     return finish(ctx, "model_checking",
                   "TLC explores the iterator state machine (head / pop / refill / last tick / tail, and New on a shared buffer from any "
                   "state) over a parameter grid and checks refinement to the declarative stream, chronological order, tick placement and "
                   "the size_hint lower bound; every completed behaviour (including the abandoned iterators before it) is replayed through "
                   "the real SliderEventsIter on one buffer; non-trivial = distinct (history, parameters) with ticks/repeats or an abandoned "
-                  "predecessor; random lattice parameters with random abandon points are validated call by call by Trace_SliderEvents")
+                  "predecessor; random lattice parameters with random abandon points are validated call by call by Trace_SliderEvents; "
+                  "SliderEvents!RefStream is also evaluated in f64 for seeded random real-valued parameters (tolerant at the exact cut-off)")
 
 
 # ----------------------------------------------------------------------------
@@ -456,15 +466,25 @@ def check_curve(ctx, prop):
 def check_C16(ctx):
     summ = check_curve(ctx, "C16")
     report_mismatches(ctx, summ, "computed curve differs from the CurveLength specification")
-    ctx.assumptions += ["lattice sub-domain only: Linear and two-point Bezier segments with integer segment lengths; Bezier (>= 3 points), "
-                        "perfect-curve and Catmull segments (and hence the Catmull simplification clause) are NOT covered",
-                        "coordinates compared within 1e-3 + 1e-6*|c| (f32 resolution), lengths within 1e-9 relative"]
+    # CurveLength!Contract / CutOrExtend evaluated on the REAL natural polyline of curved segments
+    summ = harness(ctx, ["curve", "relations", "--iters", "400000" if ctx.tier == "thorough" else "30000"], name="curve-relations", timeout=3600)
+    report_mismatches(ctx, summ, "the length contract fails on a curve with Bezier / perfect-curve / Catmull segments")
+    ctx.exhaustive = False
+    ctx.assumptions += ["the MODEL covers the lattice sub-domain: Linear and two-point Bezier segments with integer segment lengths",
+                        "for Bezier (>= 3 points), b-spline, perfect-curve and Catmull segments the natural polyline is taken from the code "
+                        "(Curve::new without a length) and the contract's clauses are evaluated on it for seeded random control-point lists: "
+                        "the approximation quality of those polylines is not a subject of this property",
+                        "coordinates compared within 1e-3 + 1e-6*|c| (f32 resolution), lengths within 1e-9 relative; the osu! Catmull "
+                        "simplification is compared with the unsimplified length within 1e-5 relative"]
     return finish(ctx, "model_checking",
                   "TLC enumerates every lattice polyline up to the step bound x every typing of its points (segment splits, two-point "
                   "Bezier) x requested lengths {none, <=0, 1, each vertex length +-1, natural, natural+1/+7, 100000} and checks the length "
                   "contract (exact distance, the two exceptions, cut/extend geometry, monotone cumulative lengths); every case is replayed "
-                  "through Curve::new, BorrowedCurve::new and SliderPath::curve in all four modes; non-trivial = distinct cases whose "
-                  "adjusted path has at least two points")
+                  "through Curve::new, BorrowedCurve::new and SliderPath::curve in all four modes; the same contract clauses (start at 0, "
+                  "finite, monotone, exact distance and its two exceptions, prefix-plus-end-point geometry, natural distance = own polyline "
+                  "length, osu! Catmull simplification keeps the length) are then evaluated on the real curves of seeded random control-point "
+                  "lists of 1..12 points with every segment type, duplicates, collinear runs and almost flat arcs x 11 requested lengths x "
+                  "four modes; non-trivial = distinct cases whose adjusted path has at least two points")
 
 
 def check_C19(ctx):
@@ -534,6 +554,8 @@ def check_C08(ctx):
     cases = os.path.join(ctx.work, "reader.ndjson")
     reader_run(ctx, "hdr", 3 if thorough else 2, "none", cases, chunk=5 if thorough else 4, intr=2 if thorough else 1)
     reader_run(ctx, "tiny", 5 if thorough else 4, "none", cases, chunk=4, intr=1)
+    # UTF-16 code units whose bytes 0A / 00 meet across unit boundaries, every chunking into 1..3 bytes
+    reader_run(ctx, "units", 3 if thorough else 2, "none", cases, chunk=3, intr=0)
     # the pinned reader (a first chunk of 1-2 bytes is consumed while sniffing the BOM) violates the model's invariant
     reader_run(ctx, "tiny", 3, "none", None, keep=False, expect_violation=True, inv=["ScheduleIndependent"])
     summ = harness(ctx, ["reader", "replay", "--prop", "C08"], cases_file=cases, name="reader-replay", timeout=3600)
